@@ -1,8 +1,8 @@
 package props
 
 import (
-	"go/types"
 	"fmt"
+	"go/types"
 	"strings"
 
 	"golang.org/x/tools/go/ssa"
